@@ -402,6 +402,67 @@ Proof.
   destruct (sup_c02_stuck_returned c s' G Hn Hre' Hsd' Hok' St) as (A & B & _). now split.
 Qed.
 
+(* ---------------------------------------------------------------- the timeout sentence of C02 *)
+
+(* "If some runnable never returns, Run() and Shutdown() still return once the timeout has elapsed": with a
+   shutdown timeout that can fire and NON-BLOCKING Stops - whatever the runnables' Run does, never returning
+   included (no `good`) - the shutdown body always has a step of its own or its timer: *)
+Lemma timeout_body_progress c s :
+  shutdown_may_fire c = true -> (forall i, i < nrun c -> stop_style (spec c i) = StopNonBlocking) ->
+  reachable_sup c s ->
+  match sd s with
+  | SdNot | SdDone => True
+  | _ => exists l, (body_step s l = true \/ l = LSdTimeout) /\ step c s l <> None
+  end.
+Proof.
+  intros Hf NB Hre.
+  assert (Hblk : forall i, sd s = SdIn i -> stop_style (spec c i) = StopUntilRunDone ->
+                           rn_at s i <> RnNot /\ run_exit (spec c i) <> ExitNever).
+  { intros i Es St. rewrite (NB i (stopping_lt c s i Hre Es)) in St. discriminate St. }
+  pose proof (stop_loop_progress c s Hre Hblk) as B.
+  destruct (sd s) eqn:Es; try exact Logic.I;
+    try (destruct B as (l & Hl & Hs); exists l; split; [left; exact Hl|exact Hs]).
+  exists LSdTimeout. split; [now right|]. apply sup_c02_timeout_enabled; assumption.
+Qed.
+
+(* ... so a state in which the implementation (timers included) cannot move has the shutdown body done,
+   Run() returned (or never called) and no Shutdown() caller inside *)
+Theorem sup_c02_timeout_stuck_returned c s :
+  shutdown_may_fire c = true -> (forall i, i < nrun c -> stop_style (spec c i) = StopNonBlocking) ->
+  0 < nrun c -> reachable_sup c s -> sd s <> SdNot -> system_stuck c s ->
+  sd s = SdDone /\ (main s = MNew \/ exists r, main s = MReturned r) /\
+  (forall k cs, find_caller k (callers s) <> Some (OpShutdown, cs)).
+Proof.
+  intros Hf NB Hn Hre Hsd St.
+  assert (Es : sd s = SdDone).
+  { pose proof (timeout_body_progress c s Hf NB Hre) as B.
+    destruct (sd s); try congruence; exfalso; destruct B as (l & [Hl| ->] & Hs); apply Hs, St;
+      first [eapply body_step_system; exact Hl|reflexivity]. }
+  split; [exact Es|]. split.
+  - destruct (sup_c02_main_progress c s Hn Hre Es) as [X|[X|(l & Hl & Hs)]]; [now left|now right|].
+    exfalso. apply Hs, St. eapply main_step_system; exact Hl.
+  - intros k cs Hf' . destruct (sup_c02_caller_returns c s k cs Es Hf') as (l & Hl & Hs).
+    apply Hs, St. eapply caller_step_system; exact Hl.
+Qed.
+
+(* every maximal execution of implementation steps (timers included) after shutdown start is finite and ends
+   there *)
+Theorem sup_c02_timeout_maximal c s ls s' :
+  shutdown_may_fire c = true -> (forall i, i < nrun c -> stop_style (spec c i) = StopNonBlocking) ->
+  0 < nrun c -> reachable_sup c s -> sd s <> SdNot ->
+  run (step c) s ls = Some s' -> forallb is_system ls = true ->
+  length ls <= mu c s /\
+  (system_stuck c s' -> sd s' = SdDone /\ (main s' = MNew \/ exists r, main s' = MReturned r) /\
+                        (forall k cs, find_caller k (callers s') <> Some (OpShutdown, cs))).
+Proof.
+  intros Hf NB Hn Hre Hsd H Hall. split; [eapply sup_c02_terminates; eassumption|].
+  intros St.
+  assert (Hre' : reachable_sup c s').
+  { destruct Hre as [ls0 H0]. exists (ls0 ++ ls). now rewrite run_app, H0. }
+  pose proof (post_shutdown_run _ _ _ _ Hsd H) as Hsd'.
+  exact (sup_c02_timeout_stuck_returned c s' Hf NB Hn Hre' Hsd' St).
+Qed.
+
 (* for Examples: a concrete (closed) state in which no step of the implementation is enabled; case analysis on
    the label and its indices, each case decided by computation *)
 Ltac concrete_stuck :=
